@@ -8,7 +8,7 @@ from hypothesis import strategies as st
 
 
 @st.composite
-def mosaic_cases(draw, tier, max_size=900, max_inputs=6, allow_inf=False):
+def mosaic_cases(draw, tier, max_size=900, max_inputs=6, allow_inf=False, allow_mixed=False):
     W = draw(st.one_of(st.integers(20, max_size), st.sampled_from([255, 256, 257, 300, 512, 513, 600])))
     H = draw(st.one_of(st.integers(20, max_size), st.sampled_from([255, 256, 257, 300, 512, 513, 600])))
     n = draw(st.integers(1, max_inputs))
@@ -51,7 +51,13 @@ def mosaic_cases(draw, tier, max_size=900, max_inputs=6, allow_inf=False):
     inf = []
     if allow_inf and draw(st.integers(0, 3)) == 0:
         inf = [[draw(st.floats(0, 1)), draw(st.floats(0, 1)), draw(st.sampled_from([1, 1, -1]))] for _ in range(draw(st.integers(1, 4)))]
-    return {
+    extra = {}
+    if allow_mixed and draw(st.integers(0, 3)) == 0:
+        extra["cd"] = True  # CDi_j spelling
+        if n >= 2 and draw(st.integers(0, 2)) > 0:
+            # a collection mixing bottom-up and top-down files of one common grid
+            extra["bottom_up_each"] = [draw(st.booleans()) for _ in range(n)]
+    return extra | {
         "inf": inf,
         "holes": holes,
         "W": W, "H": H, "rects": rects,
@@ -117,6 +123,12 @@ def header_for(case, x0, y0, w, h, bottom_up):
         hd["CRPIX2"] = h + 1 - (cry - y0)
         pc = np.array([[c, sn], [-sn, c]])
     hd["PC1_1"], hd["PC1_2"], hd["PC2_1"], hd["PC2_2"] = [float(v) for v in pc.ravel()]
+    if case.get("cd"):
+        # the same matrix spelled CDi_j (the spelling under which files of both row orders describe one common grid)
+        cdm = np.diag([hd["CDELT1"], hd["CDELT2"]]) @ pc
+        for k_ in ("CDELT1", "CDELT2", "PC1_1", "PC1_2", "PC2_1", "PC2_2"):
+            del hd[k_]
+        hd["CD1_1"], hd["CD1_2"], hd["CD2_1"], hd["CD2_2"] = [float(v) for v in cdm.ravel()]
     return hd
 
 
@@ -149,8 +161,9 @@ def write_inputs(case, d):
         sub = exp[y0 - by0 : y0 - by0 + h, x0 - bx0 : x0 - bx0 + w]
         m = ~np.isnan(data)
         sub[m] = data[m]
-        hd = header_for(case, x0, y0, w, h, case["bottom_up"])
-        stored = data[::-1] if case["bottom_up"] else data
+        bu = case["bottom_up_each"][i] if case.get("bottom_up_each") else case["bottom_up"]
+        hd = header_for(case, x0, y0, w, h, bu)
+        stored = data[::-1] if bu else data
         p = os.path.join(d, f"in{i}.fits")
         fits.writeto(p, np.ascontiguousarray(stored), header=hd, overwrite=True)
         paths[i] = p
